@@ -20,6 +20,7 @@
 #include "memwrapper.h"
 #include <stdio.h>
 #include <math.h>
+#include <float.h>
 #include "matrix.h"
 #include "preprocessing.h"
 #include "pca.h"
@@ -85,6 +86,7 @@ void CPCA(tensor *x, int scaling, size_t npc, CPCAMODEL *model)
   size_t j;
   size_t k;
   size_t pc;
+  size_t it;
   matrix *T_T;
   matrix *T;
   matrix *Eb_T;
@@ -232,9 +234,11 @@ void CPCA(tensor *x, int scaling, size_t npc, CPCAMODEL *model)
       t->data[i] = Eb->m[best_block_id]->data[i][best_colvar_id];
     }
 
+    it = 0;
     while(1){ /* loop until convergence of t */
-      if(DVectorDVectorDotProd(t, t) == 0.f){
-        /* Null component: no block has any variance left, so the convergence
+      if(DVectorDVectorDotProd(t, t) <= ss*DBL_EPSILON*DBL_EPSILON){
+        /* Null component: no block has any variance left (nothing, or less than the
+         * squared machine precision of the total variance), so the convergence
          * criterion would be NaN forever. Scores, weights and loadings of this
          * component are zero; the cumulative block variances do not change.
          */
@@ -290,7 +294,11 @@ void CPCA(tensor *x, int scaling, size_t npc, CPCAMODEL *model)
       MT_MatrixDVectorDotProduct(T, w_T, t_new);
      
       /* check for convergence */
-      if(calcConvergence(t_new, t) < CPCACONVERGENCE){
+      /* On exhausted blocks the iteration runs on rounding noise and may never
+       * meet the criterion: stop after CPCAMAXITERATIONS.
+       */
+      it++;
+      if(calcConvergence(t_new, t) < CPCACONVERGENCE || it >= CPCAMAXITERATIONS){
         #ifdef DEBUG
         printf("new score calculated\n");
         printf("pc: %zu\n", pc);
